@@ -64,7 +64,7 @@ func Payload(t *rapid.T, label string, n int) []byte {
 	return b
 }
 
-var sizeSpecials = []int{1, 2, 3, 255, 256, 4095, 4096, 4097, 8191, 8192, 8193, 65518, 65519, 65520, 65521, 131037, 131038, 131039}
+var sizeSpecials = []int{1, 2, 3, 255, 256, 511, 512, 1023, 1024, 2047, 2048, 4095, 4096, 4097, 8191, 8192, 8193, 16383, 16384, 32767, 32768, 65518, 65519, 65520, 65521, 65535, 65536, 65537, 131037, 131038, 131039, 131072, 262144, 1<<20 - 1, 1 << 20}
 
 // ICCSize draws a payload size, boundary biased, up to max.
 func ICCSize(t *rapid.T, label string, max int) int {
